@@ -25,7 +25,7 @@ Build recipe (offline sandbox, 16 cores; do NOT use /repo/_build):
 Compile a program against it:
   INC=$(for d in {wt}/libs/pika/*/include {wt}/build/libs/pika/*/include; do printf -- "-I%s " $d; done)
   g++ -std=c++20 -O1 -DFMT_SHARED -DSPDLOG_COMPILED_LIB -DSPDLOG_FMT_EXTERNAL -DSPDLOG_SHARED_LIB -D_GNU_SOURCE -DNDEBUG $INC -I{wt}/build demo.cpp -L{wt}/build/lib -lpika -lfmt -lspdlog -lhwloc -pthread -Wl,-rpath,{wt}/build/lib -o demo
-Do NOT put /root/miniconda/include on the include path. Typical program skeleton: #include <pika/init.hpp>, <pika/execution.hpp>, <pika/thread.hpp>, <pika/mutex.hpp>, <pika/semaphore.hpp>, <pika/latch.hpp>, <pika/barrier.hpp>, <pika/condition_variable.hpp>, <pika/stop_token.hpp> ...; pika::start(argc, argv) (or pika::init(pika_main, argc, argv)); run work with pika::this_thread::experimental::sync_wait(pika::execution::experimental::schedule(pika::execution::experimental::thread_pool_scheduler{{}}) | pika::execution::experimental::then(...)); pika::finalize(); pika::stop(). pika::this_thread::sleep_for is NOT supported in this tree (throws) - use pika::this_thread::yield() loops or std::this_thread::sleep_for on OS threads. Pass --pika:threads=N on the command line to choose the worker count. To measure the unmodified behaviour, use `git stash` / `git diff > patch.diff; git checkout .` in your worktree and rebuild (incremental, fast).
+Do NOT put /root/miniconda/include on the include path. Typical program skeleton: #include <pika/init.hpp>, <pika/execution.hpp>, <pika/thread.hpp>, <pika/mutex.hpp>, <pika/semaphore.hpp>, <pika/latch.hpp>, <pika/barrier.hpp>, <pika/condition_variable.hpp>, <pika/stop_token.hpp> ...; pika::start(argc, argv) (or pika::init(pika_main, argc, argv)); run work with pika::this_thread::experimental::sync_wait(pika::execution::experimental::schedule(pika::execution::experimental::thread_pool_scheduler{{}}) | pika::execution::experimental::then(...)); pika::finalize(); pika::stop(). pika::this_thread::sleep_for is NOT supported in this tree (throws) - use pika::this_thread::yield() loops or std::this_thread::sleep_for on OS threads. Pass --pika:threads=N on the command line to choose the worker count. To measure the unmodified behaviour, save your change with `git diff > /tmp/<your-worktree-name>.diff`, revert it with `git apply -R`, rebuild (incremental, fast), and re-apply it afterwards. Do NOT use `git stash`: the stash is shared between all worktrees of the repository and other engineers work in sibling worktrees.
 
 Deliverables, written into {wt}/seed_out/ :
   patch.diff   - `git diff` of your change against the worktree's HEAD (library change only)
